@@ -5,6 +5,7 @@ use serde::{Deserialize, Serialize};
 
 use crate::engsess::{BinSession, GoSpec, TextSession, Wait};
 use crate::props::c07::{build_go, build_root, cycle_strategy, go_class, root_of, RawCycle};
+use crate::gen;
 use crate::refmodel::{Mv, Pos};
 use crate::run::{replay_case, run_part, Ctx, Part, Property, HARNESS_PREFIX};
 
@@ -12,7 +13,7 @@ pub fn property() -> Property {
     Property {
         id: "C16",
         level: "exploration",
-        rule: "whole sessions (uci, isready, debug on/off, register, ucinewgame, position, go with the C07 limit mix incl. stop) against the REAL binary over pipes (quick: 64) and in-process with the console transmitter (same text lines, for volume); oracle: every line after the banner matches an independent grammar of engine-to-GUI messages (id, uciok, readyok, bestmove m [ponder m], info with typed key/value pairs, registration, copyprotection, option); per search depth / nodes / time never decrease over the info lines carrying them, every pv is a legal line in the reference model from the searched position, bestmove / ponder are the first / second move of the last pv reported in that search (no pv => 0000 without ponder; one-move pv => no ponder). Non-trivial = distinct session with >= 2 searches on different roots, or a stop, or a root without legal moves after a normal search",
+        rule: "whole sessions (uci, isready, debug on/off, register, ucinewgame, position, go with the C07 limit mix incl. stop; games continued with the engine's own bestmove and the opponent's reply, preferably the announced ponder move) against the REAL binary over pipes (quick: 64) and in-process with the console transmitter (same text lines, for volume); oracle: every line after the banner matches an independent grammar of engine-to-GUI messages (id, uciok, readyok, bestmove m [ponder m], info with typed key/value pairs, registration, copyprotection, option); per search depth / nodes / time never decrease over the info lines carrying them, every pv is a legal line in the reference model from the searched position, bestmove / ponder are the first / second move of the last pv reported in that search (no pv => 0000 without ponder; one-move pv => no ponder). Non-trivial = distinct session with >= 2 searches on different roots, or a stop, or a root without legal moves after a normal search",
         assumptions: &["sessions never send setoption (todo!() in Engine::accept; the engine advertises no options)", "wall-clock 'time' is read from the engine's own output only (monotonicity), never compared with the harness's clock"],
         parts: vec![
             Part {
@@ -42,6 +43,9 @@ pub enum TStep {
     Ask(String, String),
     Position { fen: String, moves: Vec<String> },
     Go(GoSpec),
+    /// the game goes on: the last `position` is repeated with the engine's own last bestmove and the opponent's
+    /// reply appended (the announced ponder move if `follow_ponder` and there is one, else the reply picked by `choice`)
+    Continue { choice: u16, follow_ponder: bool },
 }
 
 #[derive(Debug, Clone, Serialize, Deserialize)]
@@ -88,7 +92,38 @@ fn build(r: &(Vec<RawCycle>, Vec<u8>), binary: bool) -> TextSessionCase {
                 root
             }
         };
-        steps.push(TStep::Go(build_go(c, &root)));
+        let mut g = build_go(c, &root);
+        if binary && extras[(i + 1) % extras.len()] < 5 {
+            // the GUI keeps asking `isready` while the engine thinks (two threads write to one stdout)
+            g.pings = 8 + (c.b % 40) as u8;
+        }
+        steps.push(TStep::Go(g));
+        // now and then a search that runs for more than a second (time fields beyond 999 ms, many poll reports)
+        if i == 0 && extras[5] == 11 {
+            steps.push(TStep::Go(GoSpec { movetime: Some(1_050 + (c.a % 700) as u64), ..GoSpec::default() }));
+        }
+        // the game goes on from there (the root is only known at run time: limits that need no root)
+        let turns = match extras[(i + 3) % extras.len()] {
+            0..=2 => 3,
+            3..=5 => 1,
+            _ => 0,
+        };
+        for t in 0..turns {
+            let x = c.a.rotate_left(7 * t + 3);
+            steps.push(TStep::Continue { choice: (x >> 8) as u16, follow_ponder: x % 4 != 0 });
+            let g = match x % 5 {
+                0 => GoSpec::depth(1),
+                1 => GoSpec::depth(2),
+                2 => GoSpec::depth(3),
+                3 => GoSpec { movetime: Some((x >> 24) as u64 % 25), ..GoSpec::default() },
+                _ => GoSpec { wtime: Some(1500), btime: Some(1500), winc: Some(30), binc: Some(30), ..GoSpec::default() },
+            };
+            steps.push(TStep::Go(g));
+        }
+        if turns > 0 {
+            // the static root bookkeeping of this generator ends here
+            prev = None;
+        }
     }
     TextSessionCase { steps, binary }
 }
@@ -346,6 +381,12 @@ pub fn check_session(case: &TextSessionCase, ctx: &mut Ctx) -> Result<(), String
     let mut banner_skipped = !case.binary;
     let mut nt = false;
     let mut normal_search_done = false;
+    // what the GUI knows of the game: the last position command and the engine's last answer
+    let mut game: Option<(String, Vec<String>)> = None;
+    let mut last_answer: Option<(String, Option<String>)> = None;
+    let mut skip_next_go = false;
+    // `isready` lines sent during searches whose `readyok` has not been seen yet
+    let mut pending_readyok = 0usize;
     let wait_err = |w: Wait, trace: &Vec<String>| match w {
         Wait::ThreadDied(why, _) => format!("engine stopped answering: {why}; session {trace:?}"),
         _ => format!("{HARNESS_PREFIX} watchdog: engine silent for 90 s; session {trace:?}"),
@@ -375,7 +416,41 @@ pub fn check_session(case: &TextSessionCase, ctx: &mut Ctx) -> Result<(), String
                     }
                 }
             }
+            TStep::Continue { choice, follow_ponder } => {
+                skip_next_go = true;
+                let (Some((fen, moves)), Some((best, ponder))) = (game.clone(), last_answer.take()) else { continue };
+                let Some(bm) = Mv::parse(&best).filter(|m| root.legal_moves().contains(m)) else { continue };
+                let after = root.apply(bm);
+                let replies = after.legal_moves();
+                if replies.is_empty() || after.half >= 88 {
+                    continue;
+                }
+                let announced = ponder.and_then(|p| Mv::parse(&p)).filter(|m| replies.contains(m));
+                let reply = match (follow_ponder, announced) {
+                    (true, Some(m)) => {
+                        ctx.class("opponent_followed_the_ponder_move");
+                        nt = true;
+                        m
+                    }
+                    _ => replies[gen::pick(*choice as u32, 16, replies.len())],
+                };
+                let mut moves = moves;
+                moves.push(bm.uci());
+                moves.push(reply.uci());
+                root = after.apply(reply);
+                if root.legal_moves().is_empty() {
+                    continue;
+                }
+                let l = format!("position fen {fen} moves {}", moves.join(" "));
+                ch.line(&l)?;
+                trace.push(l);
+                game = Some((fen, moves));
+                skip_next_go = false;
+                ctx.class("game_continued");
+            }
             TStep::Position { fen, moves } => {
+                game = Some((fen.clone(), moves.clone()));
+                last_answer = None;
                 root = root_of(fen, moves)?;
                 let mut l = format!("position fen {fen}");
                 if !moves.is_empty() {
@@ -388,10 +463,23 @@ pub fn check_session(case: &TextSessionCase, ctx: &mut Ctx) -> Result<(), String
                     roots.push(root.fen4());
                 }
             }
+            TStep::Go(_) if skip_next_go => {
+                skip_next_go = false;
+            }
             TStep::Go(g) => {
                 let l = g.to_line();
                 ch.line(&l)?;
                 trace.push(l.clone());
+                let mut pinged = 0;
+                for _ in 0..g.pings {
+                    ch.line("isready")?;
+                    pinged += 1;
+                }
+                if pinged > 0 {
+                    trace.push(format!("({pinged} x isready while the search runs)"));
+                    ctx.class("isready_during_search");
+                    pending_readyok += pinged as usize;
+                }
                 if let Some(ms) = g.ponderhit_after_ms {
                     std::thread::sleep(std::time::Duration::from_millis(ms));
                     ch.line("ponderhit")?;
@@ -421,8 +509,16 @@ pub fn check_session(case: &TextSessionCase, ctx: &mut Ctx) -> Result<(), String
                     banner_skipped = true;
                 }
                 judge_search(&lines, &root, &format!("root {} `{l}`", root.fen())).map_err(|e| format!("{e}; session {trace:?}"))?;
+                pending_readyok = pending_readyok.saturating_sub(lines.iter().filter(|x| x.as_str() == "readyok").count());
+                last_answer = lines.iter().rev().find_map(|x| match parse_line(x) {
+                    Ok(OutLine::BestMove { best: Some(b), ponder }) => Some((b, ponder)),
+                    _ => None,
+                });
                 ctx.evals(1);
                 ctx.class(go_class(g));
+                if g.movetime.map_or(false, |m| m > 1000) {
+                    ctx.class("search_longer_than_one_second");
+                }
                 if root.legal_moves().is_empty() {
                     ctx.class("root_without_legal_moves");
                     if normal_search_done {
@@ -437,6 +533,9 @@ pub fn check_session(case: &TextSessionCase, ctx: &mut Ctx) -> Result<(), String
     }
     if roots.len() >= 2 {
         nt = true;
+    }
+    if pending_readyok > 0 {
+        ctx.class("readyok_arrived_after_bestmove");
     }
     match ch {
         Chan::Text(mut s) => {
